@@ -134,8 +134,14 @@ func releaseKind(p *Program, in ssa.Instruction, key string) string {
 			return "unlock"
 		}
 		if funcIs(calleeObj(x), "time", "", "AfterFunc") && len(x.Common().Args) == 2 {
-			if f := fnOfValue(x.Common().Args[1]); f != nil && unlocksOnce(boundTarget(f), x.Common().Args[1], key) {
-				return "afterfunc"
+			if f := fnOfValue(x.Common().Args[1]); f != nil {
+				if unlocksOnce(boundTarget(f), x.Common().Args[1], key) {
+					return "afterfunc"
+				}
+				// a function literal doing nothing with the mutex but one Unlock on every path
+				if f.Parent() != nil && f.Blocks != nil && goroutineUnlocksOnce(f, key) && mutexOpsIn(f, key) == 1 {
+					return "afterfunc"
+				}
 			}
 		}
 	case *ssa.Defer:
@@ -145,6 +151,9 @@ func releaseKind(p *Program, in ssa.Instruction, key string) string {
 		if cf := deferCallee(x); cf != nil && cf.Blocks != nil {
 			if handoffUnlocksOnce(cf, key) {
 				return "defer-handoff"
+			}
+			if cf.Parent() != nil && goroutineUnlocksOnce(cf, key) && mutexOpsIn(cf, key) == 1 {
+				return "defer-unlock"
 			}
 		}
 	}
@@ -165,6 +174,19 @@ func unlocksOnce(target *ssa.Function, v ssa.Value, key string) bool {
 		return false
 	}
 	return lockKey(mc.Bindings[0]) == key
+}
+
+// mutexOpsIn counts the operations on mutex key in fn (calls, defers, gos).
+func mutexOpsIn(fn *ssa.Function, key string) int {
+	n := 0
+	instrsOf(fn, func(in ssa.Instruction) {
+		if c, ok := in.(ssa.CallInstruction); ok {
+			if op, ok := mutexOp(c); ok && op.key == key {
+				n++
+			}
+		}
+	})
+	return n
 }
 
 // goroutineUnlocksOnce: every path through fn performs exactly one Unlock of key.
@@ -374,6 +396,8 @@ func checkC13(c *Check, p *Program) {
 			})
 			// the error examined is the sending function's result (captured named result or cell)
 			isSendErr := func(v ssa.Value) bool {
+				// handed to the goroutine as an argument: evaluated when the deferred closure runs, after the transmission
+				v = resolveFree(v)
 				u, ok := v.(*ssa.UnOp)
 				if !ok || u.Op != token.MUL {
 					return false
@@ -677,7 +701,7 @@ func checkC14(c *Check, p *Program) {
 			}
 		})
 	}
-	c.Floor("C14.Q1", "container/list calls on Router.retainer", nList, 8)
+	c.Floor("C14.Q1", "container/list calls on Router.retainer", nList, 6) // PushBack, Len+Front+Remove (trim), Len/Back/Remove (resend): fewer cannot implement the history
 	for _, st := range ix.stores[a.retainer] {
 		c.Decide(st.Parent() == a.ctor, "C14.Q1", FuncName(st.Parent())+" sets Router.retainer", p.InstrPos(st), "constructor only", "the list pointer is replaced after construction")
 	}
@@ -1118,10 +1142,14 @@ func cmpCountLELen(f Cmp, v ssa.Value, a *routerAnchors) bool {
 		_, isL := isListCall(call, a, "Len")
 		return isL
 	}
-	if (f.Op == token.LEQ || f.Op == token.LSS) && strip(f.X) == v && isLen(f.Y) {
+	same := func(x ssa.Value) bool {
+		// the compared value is v, v converted, or the same conversion of the same operand
+		return x == v || strip(x) == v || (strip(x) == strip(v) && types.Identical(x.Type(), v.Type()))
+	}
+	if (f.Op == token.LEQ || f.Op == token.LSS) && same(f.X) && isLen(f.Y) {
 		return true
 	}
-	if (f.Op == token.GEQ || f.Op == token.GTR) && strip(f.Y) == v && isLen(f.X) {
+	if (f.Op == token.GEQ || f.Op == token.GTR) && same(f.Y) && isLen(f.X) {
 		return true
 	}
 	return false
